@@ -48,27 +48,100 @@ def pxOf (w : Nat) (fs : List (String × Array Tok)) : Nat → Nat → Px := fun
   | some a => a.getD (i * w + j) 0
   | none => 0
 
-structure InputX where
-  input : Input
-  /-- the library filter applied to every field of this input (only for the filter command) -/
-  filtered : Option (List (String × Array Tok))
+/-- one library call the harness made for a path: which, how it ended, and what it returned -/
+def parseLoader (j : Json) : R Loader := do
+  match ← getStr j "loader" with
+  | "agilent" => pure (.agilent (← getList asStr j "methods"))
+  | "perkinelmer" => pure .perkinelmer
+  | "csv" => pure .csvdir
+  | "npz" => pure .npz
+  | "thermo" => pure .thermo
+  | "textimage" => pure .textimage
+  | x => throw s!"bad loader {x}"
 
-def parseInput (defaults : Tok × Tok × Tok) (j : Json) : R InputX := do
+def jLoader : Loader → Json
+  | .agilent ms => jObj [("loader", jStr "agilent"), ("methods", jList jStr ms)]
+  | .perkinelmer => jObj [("loader", jStr "perkinelmer")]
+  | .csvdir => jObj [("loader", jStr "csv")]
+  | .npz => jObj [("loader", jStr "npz")]
+  | .thermo => jObj [("loader", jStr "thermo")]
+  | .textimage => jObj [("loader", jStr "textimage")]
+
+def parseOutcomeWith {α} (j : Json) (ok : R α) : R (Outcome α) := do
+  match ← getStr j "outcome" with
+  | "ok" => pure (.ok (← ok))
+  | "ValueError" => pure .valueError
+  | "other" => pure .otherError
+  | x => throw s!"bad outcome {x}"
+
+structure CallX where
+  loader : Loader
+  loaded : Outcome Loaded
+  laser : Outcome Laser      -- for `io.npz.load`: the image with its stored configuration
+
+def parseCall (j : Json) : R CallX := do
+  let ld ← parseLoader j
+  let body : R (Nat × Nat × List (String × Array Tok)) := do
+    let h ← getNat j "h"
+    let w ← getNat j "w"
+    let fs ← fld j "fields" >>= parseFields h w
+    pure (h, w, fs)
+  let loaded ← parseOutcomeWith j (do
+    let (h, w, fs) ← body
+    let p ← match ld with
+      | .npz => pure { spotsize := none, speed := none, scantime := none }
+      | _ => fld j "params" >>= parseParams
+    pure ({ elements := fs.map (·.1), data := { h := h, w := w, get := pxOf w fs }, params := p } : Loaded))
+  let laser ← match ld with
+    | .npz => parseOutcomeWith j (do
+        let (h, w, fs) ← body
+        let c ← fld j "config" >>= parseCfg
+        pure ({ elements := fs.map (·.1), data := { h := h, w := w, get := pxOf w fs }, config := c } : Laser))
+    | _ => pure .otherError
+  pure { loader := ld, loaded := loaded, laser := laser }
+
+/-- the facts about a path (no library loader has been called yet when `calls` is empty) -/
+def parseSource (j : Json) : R Source := do
   let path ← fld j "path" >>= parsePath
-  let present ← getBool j "exists"
+  let sniff ← fld j "sniff" >>= fun sj => parseOutcomeWith sj (getStr sj "format")
+  let calls ← getList parseCall j "calls"
+  -- a loader the harness was not asked to call: a distinguished failure, visible as a crash
+  let call : Loader → Outcome Loaded := fun ld =>
+    match calls.find? (fun c => c.loader == ld) with
+    | some c => c.loaded
+    | none => .otherError
+  let npz : Outcome Laser :=
+    match calls.find? (fun c => c.loader == Loader.npz) with
+    | some c => c.laser
+    | none => .otherError
+  pure { path := path, present := ← getBool j "exists", isDir := ← getBool j "is_dir",
+         perkinValid := ← getBool j "perkin_valid", csvValid := ← getBool j "csv_valid",
+         sniff := sniff, info := ← (fld j "info" >>= fun ij => parseOutcomeWith ij (pure ())), call := call, npz := npz }
+
+/-- the library filter as a table keyed by the CONTENT of the grid it is handed (shape and every
+token): a grid that is not one of the fields the harness filtered gives a grid of `-1` -/
+structure FilterRow where
+  h : Nat
+  w : Nat
+  src : Array Tok
+  dst : Array Tok
+
+def parseFilterRow (j : Json) : R FilterRow := do
   let h ← getNat j "h"
   let w ← getNat j "w"
-  let fs ← fld j "fields" >>= parseFields h w
-  -- `load`: an .npz carries its own config, every other format gets Config() + loader parameters
-  let config ← match ← (fld j "config" >>= asOpt parseCfg) with
-    | some c => pure c
-    | none => do
-      let p ← fld j "params" >>= parseParams
-      pure (configOf defaults.1 defaults.2.1 defaults.2.2 p)
-  let filtered ← fld j "filtered" >>= asOpt (parseFields h w)
-  pure { input := { path := path, present := present,
-                    laser := { elements := fs.map (·.1), data := { h := h, w := w, get := pxOf w fs }, config := config } },
-         filtered := filtered }
+  let src ← getList asInt j "src"
+  let dst ← getList asInt j "dst"
+  if src.length ≠ h * w ∨ dst.length ≠ h * w then throw "filter table: data/shape mismatch"
+  pure { h := h, w := w, src := src.toArray, dst := dst.toArray }
+
+def flattenGrid (g : Grid Tok) : Array Tok :=
+  (Array.range (g.h * g.w)).map fun p => g.get (p / g.w) (p % g.w)
+
+def tableFilter (t : List FilterRow) : Grid Tok → Grid Tok := fun g =>
+  let flat := flattenGrid g
+  match t.find? (fun r => r.h == g.h && r.w == g.w && r.src == flat) with
+  | some r => mkGrid g.h g.w r.dst
+  | none => { h := g.h, w := g.w, get := fun _ _ => -1 }
 
 def parseOrient (s : String) : R Orient :=
   match s with
@@ -90,18 +163,40 @@ def jFile (f : File) : Json :=
           ("config", jCfg l.config)]
   | .csv g =>
     jObj [("path", jPath f.path), ("kind", jStr "csv"), ("shape", jList jNat [g.h, g.w]), ("data", jGrid g)]
-  | .vtk => jObj [("path", jPath f.path), ("kind", jStr "vtk")]
+  | .vtk l =>
+    jObj [("path", jPath f.path), ("kind", jStr "vtk"), ("elements", jList jStr l.elements),
+          ("shape", jList jNat [l.data.h, l.data.w]),
+          ("data", jList (fun e => jGrid (l.field e)) l.elements),
+          ("config", jCfg l.config)]
 
 def jResult (r : Result) : Json :=
   jObj [("status", jStr (if r.status = .ok then "ok" else "error")), ("files", jList jFile r.files)]
 
+/-- the image `load` returns for a path (or how it fails) -/
+def jLoadFull : Except Fail (Loader × Laser) → Json
+  | .ok x =>
+    jObj [("loader", jLoader x.1), ("elements", jList jStr x.2.elements), ("shape", jList jNat [x.2.data.h, x.2.data.w]),
+          ("data", jList (fun e => jGrid (x.2.field e)) x.2.elements), ("config", jCfg x.2.config)]
+  | .error .usage => jObj [("fail", jStr "usage")]
+  | .error .crash => jObj [("fail", jStr "crash")]
+
+def jLoad : Except Fail (Loader × Laser) → Json
+  | .ok x => jLoader x.1
+  | .error .usage => jObj [("fail", jStr "usage")]
+  | .error .crash => jObj [("fail", jStr "crash")]
+
 def handle (op : String) (req : Json) : R Json := do
   match op with
+  | "c20.plan" =>
+    -- the library calls the TABLE names for each path, in the order in which they are to be tried
+    let srcs ← getList parseSource req "sources"
+    pure (jObj [("candidates", jList (fun (s : Source) =>
+      jList jLoader ((table.filter (·.guard s)).flatMap (·.candidates))) srcs)])
   | "c20.run" =>
     let defaults ← match ← getList asInt req "defaults" with
       | [a, b, c] => pure (a, b, c)
       | _ => throw "defaults: three tokens expected"
-    let xs ← getList (parseInput defaults) req "inputs"
+    let srcs ← getList parseSource req "sources"
     let format ← getStr req "format"
     let output ← fld req "output" >>= asOpt parsePath
     let outIsDir ← getBool req "output_is_dir"
@@ -114,22 +209,21 @@ def handle (op : String) (req : Json) : R Json := do
         pure (Cmd.convert cfg els)
       | "filter" => do
         let sel ← fld req "elements" >>= asOpt (asList asStr)
-        let tables := xs.toArray.map (·.filtered)
-        let f : Nat → String → Grid Tok → Grid Tok := fun k n g =>
-          match tables[k]? with
-          | some (some t) =>
-            match t.lookup n with
-            | some a => mkGrid g.h g.w a
-            | none => g
-          | _ => g
-        pure (Cmd.filter f sel)
+        let t ← getList parseFilterRow req "filter_table"
+        -- the same library filter for every input and element; it sees the grid it is handed
+        pure (Cmd.filter (fun _ _ => tableFilter t) sel)
       | "stack" => do
         let o ← getStr req "orientation" >>= parseOrient
         let pad ← getInt req "pad"
         pure (Cmd.stack o pad)
       | _ => throw s!"bad cmd {cmdName}"
-    let a : Args := { cmd := cmd, inputs := xs.map (·.input), format := format, output := output, isDir := isDir }
-    pure (jObj [("model", jResult (run a)), ("spec", jResult (specRun a))])
+    let c : CmdLine := { cmd := cmd, calibrate := ← getBool req "calibrate", sources := srcs, format := format,
+                         output := output, isDir := isDir, defaults := defaults }
+    pure (jObj [("model", jResult (mainRun c)), ("spec", jResult (specMain c)),
+                ("model_loaders", jList (fun s => jLoad (loadMech defaults s)) srcs),
+                ("spec_loaders", jList (fun s => jLoad (loadSpec defaults s)) srcs),
+                ("model_loads", jList (fun s => jLoadFull (loadMech defaults s)) srcs),
+                ("spec_loads", jList (fun s => jLoadFull (loadSpec defaults s)) srcs)])
   | _ => throw s!"unknown op {op}"
 
 end PewDriver.C20
